@@ -34,6 +34,8 @@ def run(ctx):
     ctx.assumptions += ["byte-for-byte equality up to SHA-256 collision", "datetime.time data are not used (they depend on the date of the run)"]
     ctx.model("Timelines", "NegTimelines_shared.cfg", workers=2, expect_violation="Isolation",
               label="negative self-test: one shared default scale breaks isolation after Construct;Construct;Export")
+    ctx.model("Timelines", "NegTimelines_shareddir.cfg", workers=2, expect_violation="Isolation",
+              label="negative self-test: reading the direction back from the shared default engine-option dict breaks isolation")
     maxlen = 4 if quick else 5
     hs = [h for h in tlc_histories(ctx, maxlen) if len(h) == maxlen and any(e["a"] == "E" for e in h)]
     if not quick:
